@@ -209,8 +209,24 @@ def norm_val(val, origin, relativize):
     return GR.Val(val.rdclass, val.rdtype, val.tname, args, val.parts, val.tags)
 
 
-def build_lib_zone(mz, relativize=True, zone_factory=None, order=None):
-    """populate a library zone through find_rdataset(create=True) — no parser involved"""
+_comment_no = [0]
+
+
+def comments_of_lib_zone(z):
+    """{(folded absolute owner, type, covers, digestable rdata): comment or None} for every record of a library zone"""
+    out = {}
+    for name, node in z.nodes.items():
+        absname = name.derelativize(z.origin) if not name.is_absolute() else name
+        k = tuple(RN.fold(l) for l in absname.labels)
+        for rds in node.rdatasets:
+            for rd in rds:
+                out[(k, int(rds.rdtype), int(rds.covers), rd.to_digestable(z.origin))] = rd.rdcomment
+    return out
+
+
+def build_lib_zone(mz, relativize=True, zone_factory=None, order=None, comment_rng=None):
+    """populate a library zone through find_rdataset(create=True) — no parser involved; with comment_rng some records get a
+    (unique) end-of-line comment attached the way the zone-file reader attaches them"""
     import dns.name
     import dns.rdataclass
     import dns.zone
@@ -229,7 +245,14 @@ def build_lib_zone(mz, relativize=True, zone_factory=None, order=None):
     def make_rds(rdtype, covers, ttl, vals):
         rds = dns.rdataset.Rdataset(dns.rdataclass.IN, rdtype, covers, ttl)
         for v in vals:
-            rds.add(GR.build(norm_val(v, mz.origin, relativize)), ttl)
+            rd = GR.build(norm_val(v, mz.origin, relativize))
+            if comment_rng is not None and comment_rng.random() < 0.35:
+                _comment_no[0] += 1
+                try:
+                    rd = rd.replace(rdcomment=comment_rng.choice((" c%d", " note %d ; with a second semicolon", "c%d \"quoted\" (paren")) % _comment_no[0])
+                except Exception:
+                    pass  # some types cannot be rebuilt through replace() (observed for LOC; see C07)
+            rds.add(rd, ttl)
         rds.ttl = ttl
         return rds
 
